@@ -8,10 +8,12 @@
        S:<hex>  string        B:<hex> [ubyte]     L:<a.b.c> [long]   C:<a.b> [Color]   V:<a.b> [Vec3]   P:<a.b> [Pair]
        SV:<i.j> [string]      LV:<i.j> [Leaf]     NV:<i.j> [Node]    VS:<a> Vec3 (union member)   PS:<a> Pair (union member)
        UV:<t/i.t/i> [Any] (t 0 = NONE, i ignored)   UX:<a>/<b> type vector of UV a with value vector of UV b
+       A32|A64|A128|A256:<int>,<n>,<hexstr> nested T32..T256 buffer (v = struct from int, vs = n structs, s = string), placed at that alignment
        NB:<hexname>,<val> nested Leaf buffer as [ubyte]     N8:<int> nested Node buffer (big = int) as [ubyte], 8-aligned
        LF:name=<i>,val=<int>,pos=<int>,tags=<i>        (any subset)
        N:id=..,name=<i>,pos=<int>,pair=<int>,color=..,flag=..,big=..,f=..,opt=..,left=<i>,right=<i>,leaf=<i>,bytes=<i>,
-         longs=<i>,colors=<i>,structs=<i>,pairs=<i>,strs=<i>,nodes=<i>,leaves=<i>,any=<t>/<i>,anys=<i>,nested=<i>,nested8=<i>
+         longs=<i>,colors=<i>,structs=<i>,pairs=<i>,strs=<i>,nodes=<i>,leaves=<i>,any=<t>/<i>,anys=<i>,nested=<i>,nested8=<i>,
+         nested32=<i>,nested64=<i>,nested128=<i>,nested256=<i>
          (a key written `id!` uses force_add).   The root is the last N.
    reply:  OK srcv=<rc> dstv=<rc> val=<0|1> share=<0|1> extra=<fields outside the mask present in the copy> back_src=<n> back_dst=<n> map=<count> size=<src>/<dst> [| value dumps | sharing dumps]
            ERR <what>                                                                                              */
@@ -104,7 +106,8 @@ static void d_union(struct obuf *o, struct ids *t, ns(Any_union_t) u)
 }
 /* the fields of Node in declaration order; the bit number is the position in this list */
 #define FIELDS(X) X(0,id) X(1,name) X(2,pos) X(3,pair) X(4,color) X(5,flag) X(6,big) X(7,f) X(8,opt) X(9,left) X(10,right) X(11,leaf) \
-    X(12,bytes) X(13,longs) X(14,colors) X(15,structs) X(16,pairs) X(17,strs) X(18,nodes) X(19,leaves) X(20,any) X(21,anys) X(22,nested) X(23,nested8)
+    X(12,bytes) X(13,longs) X(14,colors) X(15,structs) X(16,pairs) X(17,strs) X(18,nodes) X(19,leaves) X(20,any) X(21,anys) X(22,nested) X(23,nested8) \
+    X(24,nested32) X(25,nested64) X(26,nested128) X(27,nested256)
 #define M(i) (mask & (1u << (i)))
 static void d_node(struct obuf *o, struct ids *t, ns(Node_table_t) n, unsigned mask)
 {
@@ -152,11 +155,22 @@ static void d_node(struct obuf *o, struct ids *t, ns(Node_table_t) n, unsigned m
     if (M(23)) { flatbuffers_uint8_vec_t v = ns(Node_nested8(n)); ob_put(o, "nested8=");
         if (!v) ob_put(o, "~"); else { ob_put(o, "["); if (!identv(t, v, o)) { k = flatbuffers_uint8_vec_len(v); for (i = 0; i < k; ++i) ob_put(o, "%02x", flatbuffers_uint8_vec_at(v, i));
             ob_put(o, "|a%u|", (unsigned)((size_t)v & 7)); } ob_put(o, "]"); } ob_put(o, " "); }
+#define D_ALIGNED(BIT, AL) \
+    if (M(BIT)) { flatbuffers_uint8_vec_t v = ns(Node_nested##AL(n)); ob_put(o, "nested" #AL "="); \
+        if (!v) ob_put(o, "~"); else { ob_put(o, "["); if (!identv(t, v, o)) { ns(T##AL##_table_t) r = ns(Node_nested##AL##_as_root(n)); ns(A##AL##_vec_t) sv = ns(T##AL##_vs(r)); \
+            k = flatbuffers_uint8_vec_len(v); ob_put(o, "%lu:", (unsigned long)k); for (i = 0; i < k; ++i) ob_put(o, "%02x", flatbuffers_uint8_vec_at(v, i)); \
+            ob_put(o, "|id%d=%d v=", ns(T##AL##_id_is_present(r)), (int)ns(T##AL##_id(r))); \
+            if (ns(T##AL##_v(r))) ob_put(o, "(%llu,%u)a%u", (unsigned long long)ns(A##AL##_a(ns(T##AL##_v(r)))), (unsigned)ns(A##AL##_b(ns(T##AL##_v(r)))), (unsigned)((size_t)ns(T##AL##_v(r)) & (AL - 1))); else ob_put(o, "~"); \
+            ob_put(o, " vs="); if (!sv) ob_put(o, "~"); else { ob_put(o, "[a%u:", (unsigned)((size_t)sv & (AL - 1))); k = ns(A##AL##_vec_len(sv)); \
+                for (i = 0; i < k; ++i) ob_put(o, "(%llu,%u)", (unsigned long long)ns(A##AL##_a(ns(A##AL##_vec_at(sv, i)))), (unsigned)ns(A##AL##_b(ns(A##AL##_vec_at(sv, i))))); ob_put(o, "]"); } \
+            ob_put(o, " s="); d_string(o, 0, ns(T##AL##_s(r))); } ob_put(o, "]"); } ob_put(o, " "); }
+    D_ALIGNED(24, 32) D_ALIGNED(25, 64) D_ALIGNED(26, 128) D_ALIGNED(27, 256)
+#undef D_ALIGNED
     ob_put(o, "}");
 }
 
 /* ------------------------------------------------------------------ building the source from the program */
-enum { K_S, K_B, K_L, K_C, K_V, K_P, K_SV, K_LV, K_NV, K_VS, K_PS, K_UV, K_UX, K_NB, K_N8, K_LF, K_N };
+enum { K_S, K_B, K_L, K_C, K_V, K_P, K_SV, K_LV, K_NV, K_VS, K_PS, K_UV, K_UX, K_NB, K_N8, K_LF, K_N, K_A32, K_A64, K_A128, K_A256 };
 struct obj { int kind; flatcc_builder_ref_t ref, ref2; };
 static struct obj *objs; static size_t nobjs, capobjs;
 static const char *g_err;
@@ -242,12 +256,19 @@ static int build_node(flatcc_builder_t *B, char *pl, flatcc_builder_ref_t *out)
             uv.type = objs[v].ref; uv.value = objs[v].ref2; r = ns(Node_anys_add(B, uv)); }
         else if (!strcmp(kv, "nested")) r = ns(Node_nested_add(B, oref(v, K_NB)));
         else if (!strcmp(kv, "nested8")) r = ns(Node_nested8_add(B, oref(v, K_N8)));
+        else if (!strcmp(kv, "nested32")) r = ns(Node_nested32_add(B, oref(v, K_A32)));
+        else if (!strcmp(kv, "nested64")) r = ns(Node_nested64_add(B, oref(v, K_A64)));
+        else if (!strcmp(kv, "nested128")) r = ns(Node_nested128_add(B, oref(v, K_A128)));
+        else if (!strcmp(kv, "nested256")) r = ns(Node_nested256_add(B, oref(v, K_A256)));
         else { g_err = "bad node key"; return -1; }
         if (r || g_err) { if (!g_err) g_err = "node field add failed"; return -1; }
     }
     *out = ns(Node_end(B));
     return *out ? 0 : -1;
 }
+/* the structs are written as raw little-endian bytes: the builder's internal stack is not over-aligned, and a typed store
+   through an A256_t pointer there is what UBSan's alignment check would (rightly, harmlessly) report */
+static void put_astruct(void *p, size_t size, uint64_t a, uint32_t b) { memset(p, 0, size); memcpy(p, &a, 8); memcpy((char *)p + 8, &b, 4); }
 static int build_obj(flatcc_builder_t *B, char *tok, int *is_node)
 {
     char *pl = strchr(tok, ':'); struct obj ob; size_t n, i; uint8_t *bytes; size_t blen;
@@ -281,6 +302,21 @@ static int build_obj(flatcc_builder_t *B, char *tok, int *is_node)
         nb = flatcc_builder_finalize_aligned_buffer(&B3, &nsz);
         ob.ref = flatcc_builder_create_vector(B, nb, nsz, 1, 8, FLATBUFFERS_COUNT_MAX(1));
         flatcc_builder_aligned_free(nb); flatcc_builder_clear(&B3); }
+#define MK_ALIGNED(AL) \
+    else if (!strcmp(tok, "A" #AL)) { flatcc_builder_t B3; void *nb, *fp; size_t nsz; char *e; long long v = strtoll(pl, &e, 10), cnt = 0, q; \
+        ob.kind = K_A##AL; if (*e == ',') cnt = strtoll(e + 1, &e, 10); \
+        flatcc_builder_init(&B3); ns(T##AL##_start_as_root(&B3)); \
+        if (v & 1) ns(T##AL##_id_add(&B3, (int32_t)v)); \
+        if (!(v & 2) && (fp = flatcc_builder_table_add(&B3, 1, sizeof(ns(A##AL##_t)), AL))) put_astruct(fp, sizeof(ns(A##AL##_t)), (uint64_t)v * 0x100000001ULL, (uint32_t)(v + 7)); \
+        if (cnt >= 0) { char *d = 0; if (posix_memalign((void **)&d, 256, (size_t)(cnt + 1) * sizeof(ns(A##AL##_t)))) exit(3); \
+            for (q = 0; q < cnt; ++q) put_astruct(d + (size_t)q * sizeof(ns(A##AL##_t)), sizeof(ns(A##AL##_t)), (uint64_t)(v + q), (uint32_t)q); \
+            ns(T##AL##_vs_add(&B3, flatcc_builder_create_vector(&B3, d, (size_t)cnt, sizeof(ns(A##AL##_t)), AL, FLATBUFFERS_COUNT_MAX(sizeof(ns(A##AL##_t)))))); free(d); } \
+        if (*e == ',' && e[1]) { blen = hx_decode(e + 1, &bytes); ns(T##AL##_s_create(&B3, (char *)bytes, blen)); free(bytes); } \
+        ns(T##AL##_end_as_root(&B3)); nb = flatcc_builder_finalize_aligned_buffer(&B3, &nsz); \
+        ob.ref = flatcc_builder_create_vector(B, nb, nsz, 1, AL, FLATBUFFERS_COUNT_MAX(1)); \
+        flatcc_builder_aligned_free(nb); flatcc_builder_clear(&B3); }
+    MK_ALIGNED(32) MK_ALIGNED(64) MK_ALIGNED(128) MK_ALIGNED(256)
+#undef MK_ALIGNED
     else if (!strcmp(tok, "LF")) { ob.kind = K_LF; if (build_leaf(B, pl, &ob.ref)) { if (!g_err) g_err = "leaf failed"; return -1; } }
     else if (!strcmp(tok, "N")) { ob.kind = K_N; *is_node = 1; if (build_node(B, pl, &ob.ref)) { if (!g_err) g_err = "node failed"; return -1; } }
     else { g_err = "unknown object kind"; return -1; }
@@ -306,7 +342,7 @@ static int op_fclone(flatcc_builder_t *B, ns(Node_table_t) t, unsigned mask)
     PT(9, left) PT(10, right) PT(11, leaf) PT(12, bytes) PT(13, longs) PT(14, colors) PT(15, structs) PT(16, pairs) PT(17, strs) PT(18, nodes) PT(19, leaves)
     if (M(20) && ns(Node_any_type(t)) && ns(Node_any_clone(B, ns(Node_any_union(t))))) return -120;
     if (M(21) && ns(Node_anys_is_present(t)) && ns(Node_anys_clone(B, ns(Node_anys_union(t))))) return -121;
-    PT(22, nested) PT(23, nested8)
+    PT(22, nested) PT(23, nested8) PT(24, nested32) PT(25, nested64) PT(26, nested128) PT(27, nested256)
 #undef SC
 #undef PT
     return 0;
@@ -316,7 +352,7 @@ static int op_vec(flatcc_builder_t *B, ns(Node_table_t) t, unsigned mask)
     /* type level clone functions followed by _add; scalars and inline structs have none: pick */
 #define PK(i, name) if (M(i) && ns(Node_##name##_pick(B, t))) return -(100 + i);
 #define CL(i, name, fn) if (M(i) && ns(Node_##name##_is_present(t)) && ns(Node_##name##_add(B, fn(B, ns(Node_##name(t)))))) return -(100 + i);
-    PK(0, id) PK(2, pos) PK(3, pair) PK(4, color) PK(5, flag) PK(6, big) PK(7, f) PK(8, opt) PK(22, nested) PK(23, nested8)   /* a nested buffer is not a plain byte vector */
+    PK(0, id) PK(2, pos) PK(3, pair) PK(4, color) PK(5, flag) PK(6, big) PK(7, f) PK(8, opt) PK(22, nested) PK(23, nested8) PK(24, nested32) PK(25, nested64) PK(26, nested128) PK(27, nested256)   /* a nested buffer is not a plain byte vector */
     CL(1, name, flatbuffers_string_clone) CL(9, left, ns(Node_clone)) CL(10, right, ns(Node_clone)) CL(11, leaf, ns(Leaf_clone))
     CL(12, bytes, flatbuffers_uint8_vec_clone) CL(13, longs, flatbuffers_int64_vec_clone) CL(14, colors, ns(Color_vec_clone))
     CL(15, structs, ns(Vec3_vec_clone)) CL(16, pairs, ns(Pair_vec_clone)) CL(17, strs, flatbuffers_string_vec_clone)
